@@ -4,10 +4,15 @@
 // case - which is what makes a saved case replayable in a fresh process.  Labels, the non-triviality flag and the
 // failure message travel back over a pipe; a child that dies (sanitizer report, signal) is a failure of the case.
 #pragma once
+#ifndef PBT_NO_WATCHDOG
+#error "a harness that forks per case must #define PBT_NO_WATCHDOG before including pbt.h (see pbt.h: fork + threads)"
+#endif
 #include "pbt_core.h"
 
 #include <functional>
 #include <string>
+#include <csignal>
+#include <cstdlib>
 #include <sys/wait.h>
 #include <unistd.h>
 
@@ -36,6 +41,8 @@ inline void forked(Ctx &ctx, const std::function<void(Ctx &)> &body, bool leakCh
     throw Failure{"harness: fork() failed"};
   if (pid == 0) {
     close(fd[0]);
+    // the parent has no watchdog thread (PBT_NO_WATCHDOG): a child that hangs ends itself, which the parent reports
+    alarm(getenv("PBT_HANG_S") ? (unsigned)atoi(getenv("PBT_HANG_S")) : 300u);
     Ctx c;
     std::string out;
     try {
@@ -101,6 +108,8 @@ inline void forked(Ctx &ctx, const std::function<void(Ctx &)> &body, bool leakCh
   }
   if (!failure.empty())
     throw Failure{failure};
+  if (!done && WIFSIGNALED(st) && WTERMSIG(st) == SIGALRM)
+    throw Failure{"HANG: the child process running the case did not finish within its time budget"};
   if (!done || !WIFEXITED(st) || WEXITSTATUS(st) != 0) {
     std::ostringstream os;
     os << "the child process running the case died (wait status " << st << "): see the sanitizer / signal report in the log";
